@@ -28,7 +28,7 @@ from . import c03
 ID = "C06"
 LEVEL = "model_checking"
 TECHNIQUE = "explicit-state BFS over run-folder states (transition = real map(fixed_indices=selector, cleanup=False) for every selector) + all generation-respecting execution orders of the learner units"
-RULE = ("pipelines {elementwise chain, 2-D outer product chain, tuple-output zip, internal axis + partial reduction, partial reduction over the other axis, independent "
+RULE = ("pipelines {elementwise chain, 2-D outer product chain, tuple-output zip, internal axis + partial reduction, partial reduction over the other axis, two zipped roots then an outer product with another axis of another size (quick: learners and rejections only), independent "
         "non-mapped function} x storage {file_array, dict+persist} x selectors = every int in [-n,n) and every slice over start/stop in {None,-n..n} x step in {None,+-1,+-2} "
         "with a non-empty selection (deduplicated to distinct index sequences, two spellings each); BFS states = sets of present elements; for two independent axes the "
         "product of their selectors. Learners: fixed_indices None/each selector class, split_independent_axes F/T, return_output F/T, all unit orders within a generation "
